@@ -255,6 +255,7 @@ impl ReadCursor {
 
     pub fn add_stream(&self, reader: &Reader, manager: &MemoryManager) -> Reader {
         let mut current_ptr = self.readers.load(CONSUME);
+        vpoint!(AS_LOADED);
         loop {
             unsafe {
                 let current_group = &*current_ptr;
@@ -292,6 +293,7 @@ impl ReadCursor {
 
     pub fn remove_reader(&self, reader: &Reader, mem: &MemoryManager) -> bool {
         let mut current_group = self.readers.load(CONSUME);
+        vpoint!(RR_LOADED);
         loop {
             unsafe {
                 if (*current_group).readers.len() == 1 {
